@@ -709,10 +709,16 @@ pub fn check_main(prop: &str, tier: Tier) -> i32 {
         wall
     );
     let _ = std::io::stdout().flush();
+    // A confirmed violation (minimised, reproduced in a fresh process) is reported even if another raw
+    // one did not reproduce; a run in which nothing could be confirmed but something did not reproduce is
+    // a harness error, never a VIOLATION.
+    if new_violations > 0 {
+        return 1;
+    }
     if harness_error {
         return 2;
     }
-    if new_violations > 0 { 1 } else { 0 }
+    0
 }
 
 fn one_line(s: &str) -> String {
